@@ -212,6 +212,65 @@ namespace
     }
   }
 
+
+  // ------------------------------------------------------------------------------------------ add_trace_double_mat_mult
+  // v <- v + alpha * diag(D * diag(a) * B) on the scalar level, B = this (l x m blocks of BH x BHD), D (m x l blocks of BHD x BH), a (l blocks of BH), v (m blocks of BHD)
+  inline DenseRef block_ref(int id, int rows, int cols, int bh, int bw, uint64_t bits, int alphabet)
+  {
+    DenseRef d(rows * bh, cols * bw);
+    for(int I = 0; I < rows; ++I) for(int J = 0; J < cols; ++J) if(bit(bits, I * cols + J))
+      for(int bi = 0; bi < bh; ++bi) for(int bj = 0; bj < bw; ++bj) d.set(I * bh + bi, J * bw + bj, mval(id, alphabet, I * bh + bi, J * bw + bj));
+    return d;
+  }
+
+  template<typename DT, typename IT, int BHD, int BH>
+  void enum_trace(verif::Ctx& c)
+  {
+    typedef SparseMatrixBCSR<DT, IT, BH, BHD> MB; typedef SparseMatrixBCSR<DT, IT, BHD, BH> MD;
+    typedef DenseVectorBlocked<DT, IT, BH> VA; typedef DenseVectorBlocked<DT, IT, BHD> VV;
+    const std::string key = "bcsr.add_trace_double_mat_mult";
+    const LD eps = LD(std::numeric_limits<DT>::epsilon());
+    for(int m = 1; m <= 2; ++m) for(int l = 1; l <= 2; ++l)
+      for(uint64_t all = 0; all < (uint64_t(1) << (2 * m * l)); ++all)
+        for(int alphabet = 0; alphabet < 3; ++alphabet)
+          for(int ai = 0; ai < 5; ++ai)
+          {
+            if(!c.want()) continue;
+            const uint64_t bd = all & ((uint64_t(1) << (m * l)) - 1), bb = all >> (m * l);
+            const Scalar& sc = scalars[palpha[ai]]; const LD alpha = LD(DT(sc.v));
+            c.desc([&]{ std::ostringstream o; o << key << "<" << tp<DT, IT>() << "> D blocks " << BHD << "x" << BH << ", B blocks " << BH << "x" << BHD << ", m=" << m << " l=" << l
+              << " block patterns D=" << bd << " B=" << bb << " alpha=" << sc.name << " alphabet=" << alphabet_name(alphabet); return o.str(); });
+            DenseRef Dd = block_ref(1, m, l, BHD, BH, bd, alphabet), B = block_ref(3, l, m, BH, BHD, bb, alphabet);
+            for(DenseRef* p : {&Dd, &B}) for(auto& v : p->a) v = LD(DT(v));
+            // matrices without blocks in the allocated representation (entry-free operands: recorded class, not generated here)
+            MD md = build_bcsr<DT, IT, BHD, BH>(Dd, m, l, bd, 1); MB mb = build_bcsr<DT, IT, BH, BHD>(B, l, m, bb, 1);
+            VA va{Index(l)}; VV vv{Index(m)};
+            std::vector<LD> af, vf; for(int q = 0; q < l * BH; ++q) af.push_back(LD(DT(sval(alphabet, q)))); for(int q = 0; q < m * BHD; ++q) vf.push_back(LD(DT(yval(alphabet, q))));
+            vfill(va, af); vfill(vv, vf);
+            const uint64_t hd = hash_of(md), hb = hash_of(mb); const auto as = vflat(va);
+            const bool exact = alphabet_exact(alphabet) && sc.dyadic && std::is_same<DT, double>::value;
+            std::vector<LD> cur = vf;
+            for(int pass = 0; pass < 2; ++pass)   // pass 1: accumulates onto the result of pass 0
+            {
+              mb.template add_trace_double_mat_mult<BHD>(vv, md, va, DT(alpha));
+              c.count("operations"); if(pass) c.count("re_invocations");
+              const auto got = vflat(vv);
+              bool ok = true;
+              for(int i = 0; i < m * BHD && ok; ++i)
+              {
+                LD s2 = 0, ab = 0; for(int q = 0; q < l * BH; ++q) if(Dd.has(i, q) && B.has(q, i)) { const LD t = Dd.at(i, q) * af[size_t(q)] * B.at(q, i); s2 += t; ab += fabsl(t); }
+                const LD expect = cur[size_t(i)] + alpha * s2;
+                ok = near<DT>(c, key + (pass ? " re-invocation" : ""), got[size_t(i)], expect, exact, LD(8 * (l * BH + 2)) * eps * (fabsl(cur[size_t(i)]) + fabsl(alpha) * ab), "component " + std::to_string(i));
+                cur[size_t(i)] = LD(got[size_t(i)]);
+              }
+              if(!ok) break;
+            }
+            c.check(hash_of(md) == hd && hash_of(mb) == hb && same_bits(as, vflat(va)), key + " operand-modified", "an input operand was modified");
+            if(bd != 0 && bb != 0) c.nontrivial(verif::Hash().str("tr").str(tp<DT, IT>()).pod(BHD).pod(BH).pod(m).pod(l).pod(all).pod(alphabet).pod(ai).get());
+            c.outcome(key);
+          }
+  }
+
   inline bool is_complete(const PDims& d, uint64_t bx, uint64_t bd, uint64_t ba, uint64_t bb)
   {
     for(int i = 0; i < d.m; ++i) for(int j = 0; j < d.n; ++j)
@@ -272,12 +331,13 @@ int main(int argc, char** argv)
     "oracle: dense long double formulas on the scalar expansion of the block matrices, restricted to the stored blocks of the output",
     "exact alphabet compared with == (double); float products, rounding alphabet, alpha=0.3, sqrt based norms: relative bound 8(terms+2) eps",
     "entry-free operands SparseMatrixBCSR(m,n)/SparseMatrixCSR(m,n) are generated; a death by signal is reported under 'entry-free operand bcsr.<op> [operand]'",
-    "excluded (API preconditions): extract_diag for non-square grids / non-square blocks; products with non-square blocks (XASSERT BlockHeight==BlockWidth); min/max of a matrix without entries"};
+    "add_trace_double_mat_mult: all block patterns of D (m x l) and B (l x m), m,l in {1,2}, block shapes (2,2),(2,3),(3,2), empty operands in the allocated representation", "out of scope of C03 (other properties): apply (C01), transpose/permute/convert/layout constructors/set_line (C02), file I/O (C05), the *_blocked_generic vector kernels of scale/norm/max_abs_index (called by DenseVectorBlocked only, C04), MKL/CUDA back ends", "excluded (API preconditions): extract_diag for non-square grids / non-square blocks; products with non-square blocks (XASSERT BlockHeight==BlockWidth); min/max of a matrix without entries"};
   return verif::run(spec, argc, argv, [&](verif::Ctx& c) {
     enum_unary<double, std::uint64_t, 2, 2>(c); enum_unary<double, std::uint64_t, 2, 3>(c); enum_unary<double, std::uint64_t, 3, 2>(c); enum_unary<double, std::uint64_t, 3, 3>(c);
     enum_unary<float, std::uint32_t, 2, 2>(c); enum_unary<double, std::uint32_t, 3, 2>(c);
     enum_products<double, std::uint64_t, 2>(c, 14, 16);
     enum_products<double, std::uint64_t, 3>(c, 10, 14);
     enum_products<float, std::uint32_t, 2>(c, 10, 14);
+    enum_trace<double, std::uint64_t, 2, 2>(c); enum_trace<double, std::uint64_t, 2, 3>(c); enum_trace<double, std::uint64_t, 3, 2>(c); enum_trace<float, std::uint32_t, 2, 2>(c);
   });
 }
